@@ -1,0 +1,74 @@
+//go:build verif
+
+package txpool
+
+import (
+	"context"
+	"fmt"
+	"time"
+
+	"github.com/oasisprotocol/oasis-core/go/common"
+	consensus "github.com/oasisprotocol/oasis-core/go/consensus/api"
+	registry "github.com/oasisprotocol/oasis-core/go/registry/api"
+	"github.com/oasisprotocol/oasis-core/go/roothash/api/block"
+	runtime "github.com/oasisprotocol/oasis-core/go/runtime/api"
+	"github.com/oasisprotocol/oasis-core/go/runtime/history"
+	"github.com/oasisprotocol/oasis-core/go/runtime/host"
+	"github.com/oasisprotocol/oasis-core/go/runtime/txpool/config"
+)
+
+// VerifCheckPool is a transaction pool wired to a caller-supplied hosted runtime, for running the
+// package-private check worker step (checkTxBatch) once on whatever the runtime answers. It exists
+// only under the "verif" build tag.
+type VerifCheckPool struct {
+	p *txPool
+}
+
+type verifHistory struct {
+	history.History
+}
+
+func (verifHistory) WaitRoundSynced(_ context.Context, round uint64) (uint64, error) {
+	return round, nil
+}
+
+// NewVerifCheckPool creates the pool; dispatch information is preset so that the check worker
+// considers the runtime ready.
+func NewVerifCheckPool(runtimeID common.Namespace, rt host.Runtime) *VerifCheckPool {
+	p := New(runtimeID, config.Config{
+		MaxPoolSize:          100,
+		MaxLastSeenCacheSize: 100,
+		MaxCheckTxBatchSize:  10,
+		RecheckInterval:      5,
+		RepublishInterval:    time.Hour,
+	}, rt, verifHistory{}, nil).(*txPool)
+	p.dispatchInfo = &runtime.DispatchInfo{
+		BlockInfo: &runtime.BlockInfo{
+			RuntimeBlock:   block.NewGenesisBlock(runtimeID, 0),
+			ConsensusBlock: &consensus.LightBlock{Height: 1},
+		},
+		ActiveDescriptor: &registry.Runtime{},
+	}
+	p.lastDispatchInfoProcessed = time.Now()
+	return &VerifCheckPool{p: p}
+}
+
+// Submit queues a raw transaction for checking.
+func (v *VerifCheckPool) Submit(tx []byte) error {
+	return v.p.SubmitTxNoWait(tx, true)
+}
+
+// CheckBatch runs one step of the check worker; a panic is returned as text.
+func (v *VerifCheckPool) CheckBatch(ctx context.Context) (panicked string, err error) {
+	defer func() {
+		if r := recover(); r != nil {
+			panicked = fmt.Sprint(r)
+		}
+	}()
+	return "", v.p.checkTxBatch(ctx)
+}
+
+// Sizes returns the sizes of the check queue and of the main (scheduling) queue.
+func (v *VerifCheckPool) Sizes() (check, queued int) {
+	return v.p.checkTxQueue.size(), v.p.mainQueue.Size()
+}
